@@ -1,4 +1,4 @@
-import common
+import common, modelgen
 
 
 def main():
@@ -6,3 +6,5 @@ def main():
     print("setup: containers engine built")
     common.build_compiler()
     print("setup: eqlog compiler built")
+    b, infos = modelgen.build_models("k", modelgen.load_corpus("k"))
+    print("setup: models harness built,", sum(1 for i in infos if i["ok"]), "theories")
